@@ -35,6 +35,7 @@ import hashlib
 import json
 import os
 
+from harness import gen as _gen
 from harness import histories, impl
 from harness.core import LaneBase, hx, hxlist
 
@@ -299,14 +300,29 @@ def read(g, name):
         return _outcome(lambda: '1' if g._is_fully_directed() else '0')
     if name == 'fu':
         return _outcome(lambda: '1' if g._is_fully_undirected() else '0')
+    # (what an export hands out is the caller's: it is changed in place right after it has been read -- adding a cycle to
+    #  the networkx graph, flipping the matrix -- and the next answers must not care)
     if name == 'nx':
-        return _outcome(lambda: _nx_canon(g.to_networkx()))
+        def f():
+            x = g.to_networkx()
+            v = _nx_canon(x)
+            _gen._abuse_nx(x)
+            return v
+        return _outcome(f)
     if name == 'adj':
-        return _outcome(lambda: _rows(g.adjacency_matrix))
+        def f():
+            a = g.adjacency_matrix
+            v = _rows(a)
+            _gen._abuse_arr(a)
+            return v
+        return _outcome(f)
     if name == 'numpy':
         def f():
             m, names = g.to_numpy()
-            return _rows(m) + '|' + hxlist(names)
+            v = _rows(m) + '|' + hxlist(names)
+            _gen._abuse_arr(m)
+            names.clear()
+            return v
         return _outcome(f)
     if name == 'skel':
         return _outcome(lambda: _skeleton_value(g))
